@@ -54,11 +54,29 @@ Definition mk_property (code : str) (name : rng3) (before a b delim offset : Z) 
 
 Record ppstate := mkPP { pp_pending : option rng3; pp_nested : Z; pp_before : Z }.
 
+(* after scan() in parse_properties: a name that is still pending, outside nested rules,
+   whose delimiter is a colon of the fragment (fragment[d:d+1] == ':': a name flushed by
+   `;` carries the position of the `;`, a bare name at the end carries -1) is a declaration
+   without value and without terminator (`a { color: }`): empty value at the end of the
+   fragment, delimiter -1 (after = end of the value, as for `a{b:c}`) *)
+Definition props_flush (fragment : str) (from : Z) (st : ppstate) (acc : list css_property)
+  : list css_property :=
+  match pp_pending st with
+  | Some p =>
+      if negb (truthyZ (pp_nested st)) && negb (r_delim p =? -1)
+         && str_eqb (py_slice fragment (r_delim p) (r_delim p + 1)) [c_colon]
+      then
+        let vp := Z.of_nat (length fragment) in
+        mk_property fragment p (pp_before st) vp vp (-1) from :: acc
+      else acc
+  | None => acc
+  end.
+
 (* scan callback of parse_properties; result kept reversed *)
 Fixpoint props_go (fragment : str) (from : Z) (st : ppstate) (acc : list css_property)
          (evs : list event) : list css_property :=
   match evs with
-  | [] => rev acc
+  | [] => rev (props_flush fragment from st acc)
   | e :: r =>
       match ety e with
       | Selector => props_go fragment from (mkPP (pp_pending st) (pp_nested st + 1) (pp_before st)) acc r
